@@ -4,11 +4,12 @@
 //! copies; with a symbolic number of pushes the allocation size becomes symbolic and CBMC runs out
 //! of memory in post-processing (*measured*: compute_price_table on one pair, 17.5 GB).
 //!
-//! Semantics: std's algorithm itself (push = append + sift_up; pop = take the last element, swap it with
-//! the root, sift_down_to_bottom + sift_up) on a fixed array of `HCAP` slots, so the order in which equal
-//! elements come out is the one the real heap produces for the same sequence of operations (the real heap
-//! is deterministic; which of two equal elements comes first matters for C13). Exceeding the capacity is
-//! outside the bound (`kani::assume(false)`, visible as an unsatisfied cover).
+//! Semantics: a bag with capacity `HCAP`; `pop` removes **any** greatest element (which of several equal
+//! maxima is a solver variable - std documents no order among equal elements, so every behaviour of the real
+//! heap is included). Exceeding the capacity is outside the bound (`kani::assume(false)`, visible as an
+//! unsatisfied cover). A faithful transcription of std's sift_up / sift_down_to_bottom on a fixed array was
+//! tried and dropped: its swaps at symbolic positions cost more than the whole search (chain harness
+//! 529 s / 7 GB with this model, > 19 GB with the transcription).
 #![allow(dead_code)]
 
 /// Capacity: 4 by default; a harness may lower it (registry `env={"VERIF_HEAP_CAP": n}`) when its shape
@@ -30,92 +31,71 @@ const fn cap_from_env() -> usize {
 }
 
 pub struct BinaryHeap<T> {
-    data: [Option<T>; HCAP],
-    len: usize,
+    slots: [Option<T>; HCAP],
 }
 
 impl<T: Ord> BinaryHeap<T> {
     pub fn new() -> Self {
-        BinaryHeap { data: [const { None }; HCAP], len: 0 }
+        BinaryHeap { slots: [const { None }; HCAP] }
     }
 
     pub fn len(&self) -> usize {
-        self.len
+        let mut n = 0;
+        let mut i = 0;
+        while i < HCAP {
+            if self.slots[i].is_some() {
+                n += 1;
+            }
+            i += 1;
+        }
+        n
     }
 
     pub fn is_empty(&self) -> bool {
-        self.len == 0
-    }
-
-    #[inline]
-    fn le(&self, a: usize, b: usize) -> bool {
-        match (&self.data[a], &self.data[b]) {
-            (Some(x), Some(y)) => x <= y,
-            _ => true,
-        }
-    }
-
-    /// std: `sift_up(start, pos)`: the element at `pos` rises while it is greater than its parent.
-    fn sift_up(&mut self, start: usize, mut pos: usize) {
-        let mut k = 0;
-        while k < HCAP {
-            if pos <= start {
-                break;
-            }
-            let parent = (pos - 1) / 2;
-            if self.le(pos, parent) {
-                break;
-            }
-            self.data.swap(pos, parent);
-            pos = parent;
-            k += 1;
-        }
+        self.len() == 0
     }
 
     pub fn push(&mut self, item: T) {
-        if self.len >= HCAP {
-            kani::assume(false);
-            core::mem::forget(item);
-            return;
+        let mut i = 0;
+        while i < HCAP {
+            if self.slots[i].is_none() {
+                self.slots[i] = Some(item);
+                return;
+            }
+            i += 1;
         }
-        let old_len = self.len;
-        self.data[old_len] = Some(item);
-        self.len = old_len + 1;
-        self.sift_up(0, old_len);
+        kani::assume(false);
+        core::mem::forget(item);
     }
 
     pub fn pop(&mut self) -> Option<T> {
-        if self.len == 0 {
-            return None;
-        }
-        self.len -= 1;
-        let end = self.len;
-        let mut item = self.data[end].take();
-        if end > 0 {
-            core::mem::swap(&mut item, &mut self.data[0]);
-            // std: sift_down_to_bottom(0): the root element sinks to the bottom along the greater children ...
-            let mut pos = 0;
-            let mut child = 1;
-            let mut k = 0;
-            while k < HCAP {
-                if child > end.saturating_sub(2) {
-                    break;
-                }
-                if self.le(child, child + 1) {
-                    child += 1;
-                }
-                self.data.swap(pos, child);
-                pos = child;
-                child = 2 * pos + 1;
-                k += 1;
+        let mut best: Option<usize> = None;
+        let mut i = 0;
+        while i < HCAP {
+            if let Some(x) = &self.slots[i] {
+                best = match best {
+                    None => Some(i),
+                    Some(b) => {
+                        let cur = self.slots[b].as_ref().unwrap();
+                        match x.cmp(cur) {
+                            core::cmp::Ordering::Greater => Some(i),
+                            core::cmp::Ordering::Equal => {
+                                if kani::any() {
+                                    Some(i)
+                                } else {
+                                    Some(b)
+                                }
+                            }
+                            core::cmp::Ordering::Less => Some(b),
+                        }
+                    }
+                };
             }
-            if child == end - 1 {
-                self.data.swap(pos, child);
-                pos = child;
-            }
-            // ... and rises again to its place
-            self.sift_up(0, pos);
+            i += 1;
         }
-        item
+        match best {
+            Some(b) => self.slots[b].take(),
+            None => None,
+        }
     }
 }
